@@ -902,9 +902,12 @@ def needsT (ts : List Tok) : Bool :=
   | none => false
   | some t => t.1 != .NEWLINE
 
-theorem needsNl_eq (cs : List DNode) : needsNl cs = needsT (leavesList cs) := by
-  unfold needsNl needsT lastLeafKind
-  cases (leavesList cs).getLast? <;> rfl
+theorem needsNl_lastTok (cs : List DNode) :
+    needsNl cs = match lastTok cs with
+      | none => false
+      | some t => t.1 != .NEWLINE := by
+  unfold needsNl lastLeafKind
+  cases lastTok cs <;> rfl
 
 theorem needsT_append (a b : List Tok) (h : b ≠ []) : needsT (a ++ b) = needsT b := by
   unfold needsT
@@ -920,12 +923,28 @@ theorem leavesList_toks (ts : List Tok) : leavesList (ts.map tk) = ts := by
   | nil => rfl
   | cons t ts ih => simp [ih]
 
+/-- `last_token()` of a list of tokens is its last element -/
+theorem lastTok_toks (ts : List Tok) : lastTok (ts.map tk) = ts.getLast? := by
+  rcases Deb.snoc_cases ts with rfl | ⟨init, t, rfl⟩
+  · simp [lastTok_nil]
+  · rw [List.map_append, List.map_cons, List.map_nil, lastTok_snoc_tok]
+    simp
+
+theorem needsNl_toks (ts : List Tok) : needsNl (ts.map tk) = needsT ts := by
+  rw [needsNl_lastTok, lastTok_toks]; rfl
+
+/-- `last_token()` of a node is the `last_token()` of its children -/
+theorem needsNl_node (k : Kind) (cs : List DNode) : needsNl [Node.node k cs] = needsNl cs := by
+  simp [needsNl_lastTok, lastTok, lastTokN]
+
+theorem needsNl_nil0 : needsNl [] = false := by simp [needsNl_lastTok, lastTok_nil]
+
+/-- only the last child matters (rowan's `last_token()` does not fall back to earlier siblings) -/
 theorem needsNl_append (X Y : List DNode) :
-    needsNl (X ++ Y) = if leavesList Y = [] then needsNl X else needsNl Y := by
-  simp only [needsNl_eq, leavesList_append]
+    needsNl (X ++ Y) = if Y = [] then needsNl X else needsNl Y := by
   split
   · rename_i h; simp [h]
-  · rename_i h; exact needsT_append _ _ h
+  · rename_i h; simp only [needsNl_lastTok, lastTok_append X Y h]
 
 theorem terminateLastLine_of_needs (cs : List DNode) (h : needsNl cs = true) :
     terminateLastLine cs =
@@ -942,34 +961,28 @@ theorem terminateLastLine_of_needs (cs : List DNode) (h : needsNl cs = true) :
     simp only [hk', ↓reduceIte]
     rfl
 
-/-- the terminator goes into the last child when everything before it is terminated -/
-theorem terminateLastLine_into (X : List DNode) (k : Kind) (cs : List DNode) (hX : needsNl X = false) :
+/-- the terminator goes into the last child (whatever is in front of it) -/
+theorem terminateLastLine_into (X : List DNode) (k : Kind) (cs : List DNode) :
     terminateLastLine (X ++ [Node.node k cs]) = X ++ [Node.node k (terminateLastLine cs)] := by
-  have hn := needsNl_append X [Node.node k cs]
-  simp only [leavesList_cons, leaves_node, leavesList_nil, List.append_nil] at hn
-  have hn1 : needsNl [Node.node k cs] = needsNl cs := by simp [needsNl_eq]
-  by_cases hl : leavesList cs = []
-  · rw [if_pos hl, hX] at hn
-    have : needsNl cs = false := by simp [needsNl_eq, hl, needsT]
-    rw [terminateLastLine_of_not_needs _ hn, terminateLastLine_of_not_needs _ this]
-  · rw [if_neg hl, hn1] at hn
-    by_cases hc : needsNl cs = true
-    · rw [hc] at hn
-      rw [terminateLastLine_of_needs _ hn, terminateLastLine_of_needs _ hc]
-      have hg : (X ++ [Node.node k cs]).getLast? = some (Node.node k cs) := by simp
-      rw [hg]
-      simp only [terminateLast_snoc', terminatedLast', lastIsNode']
-      rcases Deb.snoc_cases cs with rfl | ⟨init, last, rfl⟩
-      · simp at hl
-      · cases last <;> simp
-    · have hc' : needsNl cs = false := by simpa using hc
-      rw [hc'] at hn
-      rw [terminateLastLine_of_not_needs _ hn, terminateLastLine_of_not_needs _ hc']
+  have hn : needsNl (X ++ [Node.node k cs]) = needsNl cs := by
+    rw [needsNl_append, if_neg (by simp), needsNl_node]
+  by_cases hc : needsNl cs = true
+  · rw [hc] at hn
+    rw [terminateLastLine_of_needs _ hn, terminateLastLine_of_needs _ hc]
+    have hg : (X ++ [Node.node k cs]).getLast? = some (Node.node k cs) := by simp
+    rw [hg]
+    simp only [terminateLast_snoc', terminatedLast', lastIsNode']
+    rcases Deb.snoc_cases cs with rfl | ⟨init, last, rfl⟩
+    · simp [needsNl_nil0] at hc
+    · cases last <;> simp
+  · have hc' : needsNl cs = false := by simpa using hc
+    rw [hc'] at hn
+    rw [terminateLastLine_of_not_needs _ hn, terminateLastLine_of_not_needs _ hc']
 
 /-- a child list of tokens: a NEWLINE token is appended iff the last one is not a NEWLINE -/
 theorem terminateLastLine_toks (ts : List Tok) :
     terminateLastLine (ts.map tk) = (ts ++ if needsT ts then [(Kind.NEWLINE, ['\n'])] else []).map tk := by
-  have hn : needsNl (ts.map tk) = needsT ts := by rw [needsNl_eq, leavesList_toks]
+  have hn : needsNl (ts.map tk) = needsT ts := needsNl_toks ts
   by_cases h : needsT ts = true
   · rw [terminateLastLine_of_needs _ (by rw [hn]; exact h)]
     simp only [h, ↓reduceIte]
@@ -1165,21 +1178,37 @@ theorem leaves_item_ne (i : LItem) : leavesList i.nodes ≠ [] := by
   | entry e => simp [LItem.nodes, EntryS.node, leavesList_toks, EntryS.toks]
   | bare k => simp [LItem.nodes, entryNew]
 
+theorem item_nodes_ne (i : LItem) : i.nodes ≠ [] := by
+  cases i <;> simp [LItem.nodes]
+
+/-- the nodes of an item: `last_token()` is the last token of the item -/
+theorem needsNl_item (i : LItem) : needsNl i.nodes = needsT (leavesList i.nodes) := by
+  cases i with
+  | comment t nl =>
+    simp only [LItem.nodes]
+    rw [needsNl_toks, leavesList_toks]
+  | entry e =>
+    simp only [LItem.nodes, EntryS.node, leavesList_cons, leaves_node, leavesList_nil, List.append_nil]
+    rw [needsNl_node, needsNl_toks, leavesList_toks]
+  | bare k =>
+    simp [LItem.nodes, entryNew, Text.splitOn, valueLineToks, needsNl_lastTok, lastTok, lastTokN, needsT]
+
 theorem needsNl_item_allNl (i : LItem) (h : i.toP.AllNl) : needsNl i.nodes = false := by
+  rw [needsNl_item]
   cases i with
   | comment t nl =>
     simp only [LItem.toP, PItem.AllNl] at h
     subst h
-    simp [LItem.nodes, needsNl_eq, leavesList_toks, nlTok, needsT]
+    simp [LItem.nodes, leavesList_toks, nlTok, needsT]
   | entry e =>
-    simp only [LItem.nodes, needsNl_eq, leavesList_cons, EntryS.node, leaves_node, leavesList_toks,
+    simp only [LItem.nodes, leavesList_cons, EntryS.node, leaves_node, leavesList_toks,
       leavesList_nil, List.append_nil]
     exact needsT_entry_allNl e h
   | bare k =>
-    simp [LItem.nodes, needsNl_eq, entryNew, Text.splitOn, valueLineToks, needsT]
+    simp [LItem.nodes, entryNew, Text.splitOn, valueLineToks, needsT]
 
 theorem needsNl_snoc_item (X : List DNode) (i : LItem) (h : i.toP.AllNl) : needsNl (X ++ i.nodes) = false := by
-  rw [needsNl_append, if_neg (leaves_item_ne i)]; exact needsNl_item_allNl i h
+  rw [needsNl_append, if_neg (item_nodes_ne i)]; exact needsNl_item_allNl i h
 
 /-- **`terminate_last_line` on a paragraph body** sets the terminator flag of the last line -/
 theorem terminateLastLine_body (b : List LItem) (h : itemsTerm (toPs b) false) :
@@ -1199,14 +1228,14 @@ theorem terminateLastLine_body (b : List LItem) (h : itemsTerm (toPs b) false) :
         | true => exact terminateLastLine_of_not_needs _ (needsNl_snoc_item X _ rfl)
         | false =>
           have hn : needsNl (X ++ (LItem.comment t false).nodes) = true := by
-            rw [needsNl_append, if_neg (leaves_item_ne _)]
-            simp [LItem.nodes, needsNl_eq, nlTok, needsT]
+            rw [needsNl_append, if_neg (item_nodes_ne _), needsNl_item]
+            simp [LItem.nodes, nlTok, needsT]
           rw [terminateLastLine_of_needs _ hn]
           simp [LItem.nodes, nlTok, LItem.term]
       | entry e =>
         have het : e.Term false := by simpa [toPs, LItem.toP, itemsTerm] using h
         simp only [LItem.nodes, EntryS.node, LItem.term]
-        rw [terminateLastLine_into X _ _ hX, terminateLastLine_toks, ← EntryS.toks_termE e het]
+        rw [terminateLastLine_into X _ _, terminateLastLine_toks, ← EntryS.toks_termE e het]
       | bare k => exact terminateLastLine_of_not_needs _ (needsNl_snoc_item X _ (LItem.term_allNl (.bare k)))
     | cons j js =>
       have hi : i.toP.AllNl := by
@@ -1219,7 +1248,7 @@ theorem terminateLastLine_body (b : List LItem) (h : itemsTerm (toPs b) false) :
 
 theorem terminateLastLine_lnodes (b : List LItem) (h : itemsTerm (toPs b) false) :
     terminateLastLine (lnodes b) = lnodes (b.map LItem.term) := by
-  have := terminateLastLine_body b h [] (by simp [needsNl_eq, needsT])
+  have := terminateLastLine_body b h [] needsNl_nil0
   simpa using this
 
 /-- a fully terminated body needs no terminator -/
@@ -1672,7 +1701,7 @@ theorem onPara_units (f : List DNode → List DNode) (g : List LItem → List LI
 
 /-! ### terminating the document's last line -/
 
-theorem needsNl_nil : needsNl [] = false := by simp [needsNl_eq, needsT]
+theorem needsNl_nil : needsNl [] = false := needsNl_nil0
 
 theorem unit_closed_of_follows (u y : EUnit) (h : follows u (some y)) :
     u.term = u ∧ ∀ X, needsNl X = false → needsNl (X ++ [u.node]) = false := by
@@ -1681,7 +1710,9 @@ theorem unit_closed_of_follows (u y : EUnit) (h : follows u (some y)) :
     cases g with
     | blank =>
       refine ⟨rfl, fun X _ => ?_⟩
-      rw [needsNl_append]; simp [EUnit.node, Gap.node, Gap.toks, needsNl_eq, needsT]
+      rw [needsNl_append, if_neg (by simp)]
+      simp only [EUnit.node, Gap.node]
+      rw [needsNl_node, needsNl_toks]; simp [Gap.toks, needsT]
     | comment t nl =>
       have hnl : nl = true := by
         rcases h with h | h
@@ -1689,29 +1720,29 @@ theorem unit_closed_of_follows (u y : EUnit) (h : follows u (some y)) :
         · simp at h
       subst hnl
       refine ⟨rfl, fun X _ => ?_⟩
-      rw [needsNl_append]; simp [EUnit.node, Gap.node, Gap.toks, nlTok, needsNl_eq, needsT]
+      rw [needsNl_append, if_neg (by simp)]
+      simp only [EUnit.node, Gap.node]
+      rw [needsNl_node, needsNl_toks]; simp [Gap.toks, nlTok, needsT]
   | para b =>
     have hall := allNl_of_itemsTerm _ (by simpa using h.1)
-    refine ⟨by simp [EUnit.term, body_term_id b hall], fun X hX => ?_⟩
-    rw [needsNl_append]
-    split
-    · exact hX
-    · simp only [EUnit.node, needsNl_eq, leavesList_cons, leaves_node, leavesList_nil, List.append_nil]
-      rw [← needsNl_eq]; exact needsNl_lnodes_allNl b hall
+    refine ⟨by simp [EUnit.term, body_term_id b hall], fun X _ => ?_⟩
+    rw [needsNl_append, if_neg (by simp)]
+    simp only [EUnit.node]
+    rw [needsNl_node]; exact needsNl_lnodes_allNl b hall
 
-theorem terminateLastLine_last_unit (u : EUnit) (h : follows u none) (X : List DNode) (hX : needsNl X = false) :
+theorem terminateLastLine_last_unit (u : EUnit) (h : follows u none) (X : List DNode) (_hX : needsNl X = false) :
     terminateLastLine (X ++ [u.node]) = X ++ [u.term.node] := by
   cases u with
   | gap g =>
     simp only [EUnit.node, Gap.node]
-    rw [terminateLastLine_into X _ _ hX, terminateLastLine_toks]
+    rw [terminateLastLine_into X _ _, terminateLastLine_toks]
     cases g with
     | blank => simp [Gap.toks, needsT, EUnit.term, EUnit.node, Gap.node]
     | comment t nl =>
       cases nl <;> simp [Gap.toks, nlTok, needsT, EUnit.term, EUnit.node, Gap.node]
   | para b =>
     simp only [EUnit.node]
-    rw [terminateLastLine_into X _ _ hX, terminateLastLine_lnodes b (by simpa using h.1)]
+    rw [terminateLastLine_into X _ _, terminateLastLine_lnodes b (by simpa using h.1)]
     rfl
 
 theorem terminateLastLine_units (us : List EUnit) (h : unitsTermN us none) :
